@@ -26,6 +26,33 @@ fn main() {
     if let Some(path) = arg(&args, "--replay") {
         std::process::exit(plans::replay_file(&path));
     }
+    // self-test of the unit-test renderer: one stand-alone test per operation of a profile
+    if let Some(name) = arg(&args, "--unit-test-zoo") {
+        let prof = plans::profile_by_name(&name).expect("profile");
+        use lsverif::pool::Op;
+        let mut out = String::new();
+        for (n, &op) in prof.table.iter().enumerate() {
+            let mut ops = vec![Op::FromStr(4), Op::Clone(0), Op::FromStr(1)];
+            ops.truncate(prof.k.min(3));
+            if op.is_ctor() || op.is_clone() {
+                ops.pop();
+            }
+            if op.target().is_some_and(|t| t >= ops.len()) {
+                continue;
+            }
+            ops.push(op);
+            let t = lsverif::unittest::unit_test(&format!("zoo_{n}"), prof.k, &ops);
+            // one prelude only
+            let body = t.split_once("#[test]").unwrap();
+            if out.is_empty() {
+                out.push_str(body.0);
+            }
+            out.push_str("#[test]");
+            out.push_str(body.1);
+        }
+        print!("{out}");
+        return;
+    }
     let prop = arg(&args, "--prop").expect("--prop");
     let tier = arg(&args, "--tier").unwrap_or_else(|| "quick".into());
     let out = arg(&args, "--out").unwrap_or_else(|| format!("/verif/evidence/{prop}.json"));
